@@ -63,7 +63,7 @@ pub struct Actor {
     pub bytes_after_fault: u64,
 }
 
-#[derive(Default)]
+#[derive(Default, Clone)]
 pub struct AppLog {
     pub actors: BTreeMap<(u8, u8, u8), Actor>,
     pub ghosts: Vec<String>,
@@ -105,6 +105,8 @@ pub struct RunOut {
     pub capped: bool,
     pub cap_extended: u32,
     pub panic: Option<String>,
+    /// (buffers overrun, size of the last one, bytes past its end) from the guarded allocator
+    pub heap_overruns: (u64, usize, usize),
 }
 
 fn now_ns() -> u64 {
@@ -456,6 +458,7 @@ pub fn execute(plan: &Plan) -> RunOut {
     let t_exec0 = std::time::Instant::now();
     PANIC_INFO.with(|p| *p.borrow_mut() = None);
     trace::reset();
+    let _ = crate::guard::take();
     let plan = Arc::new(plan.clone());
     let link: Shared = Arc::new(Mutex::new(LinkState::new(&plan)));
     let app = Arc::new(Mutex::new(AppLog::default()));
@@ -469,7 +472,7 @@ pub fn execute(plan: &Plan) -> RunOut {
         server_hs_requests: Arc::new(AtomicU64::new(0)),
         streams_opened: vec![0; n_clients],
     }));
-    let result: Arc<Mutex<(EndState, u64, bool, u32, BTreeMap<String, u64>)>> = Default::default();
+    let result: Arc<Mutex<(EndState, u64, bool, u32, BTreeMap<String, u64>, BTreeMap<String, u64>, AppLog)>> = Default::default();
 
     let mut rt = bach::environment::default::Runtime::new()
         .with_seed(plan.cfg.bach_seed)
@@ -592,6 +595,9 @@ pub fn execute(plan: &Plan) -> RunOut {
                 let result = result.clone();
                 async move {
                     let grace_ns = (2 * (ctx.plan.cfg.base_delay_us + ctx.plan.cfg.jitter_us) + 50_000) * 1000;
+                    // vanish plans contain application pauses of up to 40 s on top of the 30 s idle timeout;
+                    // all other families pause for at most 1 s and black out for at most 3 s
+                    let quiet_limit_ns: u64 = if ctx.plan.family == "vanish" { 150_000_000_000 } else { 75_000_000_000 };
                     let mut cap_ns = ctx.plan.cfg.cap_s * 1_000_000_000;
                     let hard_ns = cap_ns * 12;
                     let mut extended = 0u32;
@@ -608,9 +614,16 @@ pub fn execute(plan: &Plan) -> RunOut {
                         if pending <= 0 && t.saturating_sub(last_change) >= grace_ns {
                             break;
                         }
+                        // hang detector: tasks pending and neither application progress nor any task
+                        // start/finish for 75 s (150 s in the vanish family) of virtual time, i.e.
+                        // at least 2.5 x the stream idle timeout, or the absolute cap
+                        let quiet = t.saturating_sub(last_progress.max(last_change));
+                        if pending > 0 && quiet > quiet_limit_ns {
+                            capped = true;
+                            break;
+                        }
                         if t >= cap_ns {
-                            // hang detector: only if nothing progressed for a long time
-                            if t < hard_ns && t.saturating_sub(last_progress) < 60_000_000_000 {
+                            if t < hard_ns && quiet < 60_000_000_000 {
                                 cap_ns += ctx.plan.cfg.cap_s * 1_000_000_000;
                                 extended += 1;
                             } else {
@@ -646,7 +659,8 @@ pub fn execute(plan: &Plan) -> RunOut {
                         read_counters(&sv.subscriber(), &mut counters);
                     }
                     end.server_handshake_requests = s.server_hs_requests.load(Ordering::Relaxed);
-                    *result.lock().unwrap() = (end, now_ns(), capped, extended, counters);
+                    let app_snapshot = ctx.app.lock().unwrap().clone();
+                    *result.lock().unwrap() = (end, now_ns(), capped, extended, counters, trace::take(), app_snapshot);
                 }
                 .primary()
                 .spawn_named("supervisor");
@@ -677,9 +691,10 @@ pub fn execute(plan: &Plan) -> RunOut {
     if std::env::var("VERIF_TIMING").is_ok() {
         eprintln!("timing: run {:?} teardown {:?}", t_run_done.duration_since(t_exec0), t_run_done.elapsed());
     }
-    let events = trace::take();
-    let (end, end_ns, capped, cap_extended, counters) = std::mem::take(&mut *result.lock().unwrap());
-    let app = std::mem::take(&mut *app.lock().unwrap());
+    let _ = trace::take();
+    let (end, end_ns, capped, cap_extended, counters, events, app_snapshot) = std::mem::take(&mut *result.lock().unwrap());
+    // after a panic there is no snapshot: fall back to the live log
+    let app = if panic.is_some() { std::mem::take(&mut *app.lock().unwrap()) } else { app_snapshot };
     let mut l = link.lock().unwrap();
     RunOut {
         app,
@@ -696,5 +711,6 @@ pub fn execute(plan: &Plan) -> RunOut {
         capped,
         cap_extended,
         panic,
+        heap_overruns: crate::guard::take(),
     }
 }
